@@ -17,7 +17,9 @@ RULE = ("the same definition/noise/calibration/config compiled as a Python filte
         "prediction and sensor-update steps with identical binary64 inputs (the Python result feeds the next step of both); compared by "
         "name: state, covariance, stored innovation, accept/reject; all control/calibration presences, CSE on/off, k>0 or disabled; distinct "
         "by (definition, config, step input); non-trivial = update with >=2 readings or prediction with control")
-NOTE = ["exact-arithmetic equality of the two association orders is a theorem (C07.predict_same, update_same); binary64 results are compared "
+NOTE = ["on rational definitions every compared step is also run through the exact Lean model on the same binary64 inputs (as exact "
+        "rationals) and both filters are compared with it (three-way correspondence)",
+        "exact-arithmetic equality of the two association orders is a theorem (C07.predict_same, update_same); binary64 results are compared "
         "under 1e-9 relative tolerance; decisions are compared when the NIS is farther than 1e-7 (relative) from the threshold",
         "C++ built with g++ against the Eigen stand-in (Gauss-Jordan inverse), Python uses numpy/LAPACK"]
 PARTIAL = ["Eigen's own evaluation order is not exercised (stand-in)"]
@@ -145,8 +147,39 @@ def run(ctx):
             Psc = 1.0 + max(float(np.max(np.abs(py["cov"]))), float(np.max(np.abs(cv.data))))
             if float(np.max(np.abs(cP - py["cov"]))) > 1e-9 * Psc:
                 ctx.fail("py-cpp-cov:" + ("update" if do_update else "predict"), f"covariance differs: Python {py['cov'].tolist()}, C++ {cP.tolist()}", case); break
+            if rational and (ctx.quick is False or step < 4):
+                # third party: the exact Lean model on the very same binary64 inputs (as exact rationals)
+                ptj = {"cal": cal, "dt": cur["dt"], "state": {s2: F(x[s2]) for s2 in Ls}, "control": cur["control"]}
+                op = {"ekf": eh.ekf_json(d, process, sensor, k), "point": eh.point_json(ptj), "P": [[core.frac_str(F(float(v))) for v in r] for r in P.tolist()]}
+                if do_update:
+                    op.update(op="update", sensor=key, z=[[r2, core.frac_str(F(v))] for r2, v in z.items()])
+                else:
+                    op.update(op="predict")
+                pending.append((drv.add(op), do_update, near, py, cs, cP, float(np.max(np.abs(cv.data))), case))
             x = {s: float(py["state"][s]) for s in Ls}
             P = 0.5 * (py["cov"] + py["cov"].T)
+    ans = drv.run()
+    for idx, is_update, near, py, cs, cP, prior_mag, info in pending:
+        a = ans[idx]
+        which = "update" if is_update else "predict"
+        if "ok" not in a:
+            if a.get("fatal") in ("undefined", "eval-failed", "singular"):
+                ctx.count("model_undefined_point"); continue
+            ctx.broke(f"driver:{which}", a, info); continue
+        o = a["ok"]
+        if is_update and (near or bool(o["rejected"]) != bool(py["rejected"])):
+            # the decision itself is compared between the implementations above and with the model in C06
+            ctx.count("model_decision_not_compared"); continue
+        ctx.count("model_steps_compared")
+        ms = {n2: float(core.parse_frac(v)) for n2, v in o["state"].items()}
+        mP = np.array([[float(core.parse_frac(v)) for v in r] for r in o["cov"]], dtype=float)
+        sc = max([abs(v) for v in ms.values()] + [1.0])
+        Psc = 1.0 + max(float(np.max(np.abs(mP))), prior_mag)
+        for side, gs, gP in (("python", py["state"], py["cov"]), ("cpp", cs, cP)):
+            if set(ms) != set(gs) or not all(core.close(gs[n2], ms[n2], scale=sc) for n2 in ms) or float(np.max(np.abs(np.asarray(gP) - mP))) > 1e-9 * Psc:
+                ctx.broke(f"correspondence:{which} (Lean model vs {side} filter)",
+                          {"model": {"state": ms, "cov": mP.tolist()}, "impl_state": gs, "impl_cov": np.asarray(gP).tolist()}, info)
+                break
     return core.finish(ctx, audit, NOTE, RULE, PARTIAL)
 
 
